@@ -550,12 +550,15 @@ theorem su2_roundtrip (a b : Cx ℝ) (hu : nrm2 a b = 1) (eps : ℝ) (h0 : 0 < e
     rw [s1, s2, ea, eb]
     congr 1 <;> ext <;> simp
 
-/-- **`so3_to_su2` returns an SU(2) pre-image**: the result is unitary with determinant one for every input, and for `M ∈ SO(3)`
-outside the tolerance region `su2_to_so3 (so3_to_su2 M) = M`. -/
+/-- **`so3_to_su2` always returns an element of SU(2)**: unitary with determinant one for every input `M` (thin: it is
+`angleToSU2_mem_SU2` at the extracted angles, i.e. `cos² + sin² = 1`; it says nothing about `so3_to_angle`.  That the result is a
+pre-image of `M` is `so3ToSU2_section` below). -/
 theorem so3ToSU2_mem_SU2 (M : Matrix (Fin 3) (Fin 3) ℝ) (eps : ℝ) :
     M2 (so3ToSU2 (1/2) M eps) * conjT (M2 (so3ToSU2 (1/2) M eps)) = 1 ∧ (M2 (so3ToSU2 (1/2) M eps)).det = 1 :=
   angleToSU2_mem_SU2 _ _ _
 
+/-- **`so3_to_su2` is a section of `su2_to_so3`**: for `M ∈ SO(3)` outside the tolerance region (`β ∈ {0, π}` or `eps ≤ β ≤ π - eps`),
+`su2_to_so3 (so3_to_su2 M) = M`. -/
 theorem so3ToSU2_section (M : Matrix (Fin 3) (Fin 3) ℝ) (hO : M * Mᵀ = 1) (hd : M.det = 1) (eps : ℝ) (h0 : 0 < eps) (hpi : eps < Real.pi)
     (hthr : Real.arccos (M 2 2) = 0 ∨ Real.arccos (M 2 2) = Real.pi ∨ (eps ≤ Real.arccos (M 2 2) ∧ Real.arccos (M 2 2) ≤ Real.pi - eps)) :
     M3 (su2ToSO3 (1/2) (so3ToSU2 (1/2) M eps 0 0) (so3ToSU2 (1/2) M eps 0 1)) = M := by
